@@ -40,6 +40,19 @@ let handle = function
        String.concat "" (List.map (fun ((((((lvl, pnum), full), lkl), szpow), keys), lk) ->
          " |" ^ string_of_z lvl ^ "/" ^ string_of_z pnum ^ "/" ^ string_of_z full ^ "/" ^ string_of_z lkl ^ ":p" ^ string_of_z szpow
          ^ String.concat "" (List.map (fun k -> "," ^ hex_of_bytes k) keys) ^ ";lk=" ^ hex_of_bytes lk) nodes))
+  | ["recs"; path; dbid] ->
+    (* every record of one database as the model reader (KV/Records.v: chain_recs) decodes it, in the format of the harness `recs` line *)
+    let ic = open_in_bin path in
+    let n = in_channel_length ic in
+    let b = really_input_string ic n in
+    close_in ic;
+    let rd z = let i = int_of_z z in if i >= 0 && i < n then small.(Char.code b.[i]) else Z0 in
+    let fnv v = List.fold_left (fun h x -> ((h lxor (int_of_z x)) * 16777619) land 0xffffffff) 2166136261 v in
+    (match db_recs rd (z_of_int n) (z_of_string dbid) with
+     | None -> "NONE"
+     | Some nodes ->
+       "OK" ^ String.concat "" (List.map (fun recs ->
+         " |" ^ String.concat "," (List.map (fun (k, v) -> hex_of_bytes k ^ ":" ^ string_of_int (List.length v) ^ ":" ^ string_of_int (fnv v)) recs)) nodes))
   | [] -> ""
   | _ -> "?"
 let () = main_loop handle
